@@ -26,7 +26,10 @@ def gen(rng, layout, m, obj='quad', cons=('lin',), bmode='scalar', mmode='scalar
     n, nv = int(np.sum(sizes)), len(sizes)
     lo0, hi0 = box
     w = hi0 - lo0
-    if bmode == 'scalar':
+    if bmode == 'default':
+        assert box == (0.0, 1.0)
+        xmin_s, xmax_s = ('default', 0.0, None), ('default', 1.0, None)
+    elif bmode == 'scalar':
         xmin_s, xmax_s = ('scalar', lo0, None), ('scalar', hi0, None)
     elif bmode == 'signal':
         a = lo0 + 0.2 * w * rng.random(nv)
@@ -38,7 +41,9 @@ def gen(rng, layout, m, obj='quad', cons=('lin',), bmode='scalar', mmode='scalar
         xmin_s, xmax_s = ('scalar', lo0, None), ('variable', (lo0 + w * (0.5 + rng.random(n))).tolist(), container)
     xmin, xmax = L.expand(xmin_s[0], xmin_s[1], sizes), L.expand(xmax_s[0], xmax_s[1], sizes)
     dx = xmax - xmin
-    if mmode == 'scalar':
+    if mmode == 'default':
+        move_s = ('default', 0.1, None)
+    elif mmode == 'scalar':
         move_s = ('scalar', movescale * float(rng.choice([0.1, 0.25, 0.5])), None)
     elif mmode == 'signal':
         move_s = ('signal', (movescale * (0.1 + 0.4 * rng.random(nv))).tolist(), container)
@@ -139,7 +144,7 @@ def _container(bmode, mmode, layout, k):
 
 
 @bound('7-iteration runs: n in {1,2,3,5,9} [quick] + {16,30} [thorough] x all layouts (one array / scalars only / array+scalar+1-long array) x m in 1..3 x versions 1987/2007; '
-       'bound modes scalar/per-signal/per-variable/mixed, move modes scalar/per-signal/per-variable, arrays and python lists, boxes [0,1], [-50,100], [-0.3,0.2] (ranges below 0.1: see small_range), '
+       'bound modes omitted(defaults)/scalar/per-signal/per-variable/mixed, variables passed as list/tuple/single Signal, move modes omitted/ scalar/per-signal/per-variable, arrays and python lists, boxes [0,1], [-50,100], [-0.3,0.2] (ranges below 0.1: see small_range), '
        'start points with variables exactly on a bound; objective separable/non-separable quadratic, constraints linear/quadratic/reciprocal, some connected to a subset of the signals; '
        'every clause of the statement at every iteration (native/C10_lib.audit)')
 def iterations(r, tier, seed):
@@ -156,8 +161,11 @@ def iterations(r, tier, seed):
                         bmode, mmode = BMODES[k % 4], MMODES[(k // 4 + k) % 3]
                         obj, cons = PROBLEMS[(k // 2) % 4]
                         box = BOXES[(k // 3) % 3] if 'recip' not in cons else (0.1, 1.5)
+                        if k % 6 == 1 and 'recip' not in cons:   # bounds and move omitted: documented defaults 0, 1, 0.1
+                            bmode, mmode, box = 'default', ('default' if k % 12 == 1 else mmode), (0.0, 1.0)
                         spec = gen(rng, layout, m, obj=obj, cons=cons, bmode=bmode, mmode=mmode, container=_container(bmode, mmode, layout, k), box=box,
                                    opts=dict(maxit=7, tolx=0.0, mmaversion=ver), partial=(k % 3 == 0), one_module=(k % 5 == 0), movescale=(2.0 if k % 7 == 0 else 1.0))
+                        spec['varform'] = ('single' if k % 2 else 'list') if len(layout) == 1 else ('tuple' if k % 3 == 0 else 'list')
                         report(r, ('it', rep, n, li, m, ver), spec)
 
 
@@ -271,4 +279,78 @@ def list_bounds(r, tier, seed):
                 replay_code=REPLAY_HEAD + _LIB_SRC + f"\n\nspec = {bad!r}\ntr = run(spec)\nassert tr['error'] is not None and tr['error'].startswith('ValueError'), tr['error']\n")
 
 
-CHECKS = [('iterations', iterations), ('asymptote_parameters', asymptote_parameters), ('convergence', convergence), ('histories', histories), ('list_bounds', list_bounds)]
+@bound('subproblems recorded from 4-iteration runs (n in {1,3,8}, m in {1,3}, both versions), solved again by calling subsolv directly with x0 = None, x0 = alfa, x0 = beta, '
+       'x0 = the recorded start: optimality conditions (own formulas), agreement of the four solutions within 1e-6 of the interval width, arguments unchanged')
+def subsolv_direct(r, tier, seed):
+    import pymoto.common.mma as M
+    rng = np.random.default_rng(seed + 15)
+    names = ('low', 'upp', 'alfa', 'beta', 'P', 'Q', 'a0', 'a', 'b', 'c', 'd')
+    for n, m, ver in itertools.product((1, 3, 8) if tier == 'quick' else (1, 2, 3, 8, 20), (1, 3), VERSIONS):
+        spec = gen(rng, layouts(n)[0], m, obj='quad', cons=('lin', 'quad'), bmode=BMODES[(n + m) % 4], opts=dict(maxit=4, tolx=0.0, mmaversion=ver))
+        tr = L.run(spec)
+        for ci in (0, len(tr['calls']) - 1):
+            a = tr['calls'][ci]['args']
+            el = L.eps_last(a['epsimin'])
+            sols = {}
+            for label, x0 in (('none', None), ('alfa', a['alfa'].copy()), ('beta', a['beta'].copy()), ('recorded', a['x0'].copy())):
+                r.case((n, m, ver, ci, label))
+                args = {k: (a[k].copy() if isinstance(a[k], np.ndarray) else a[k]) for k in names}
+                x0c = None if x0 is None else x0.copy()
+                import contextlib, io
+                with contextlib.redirect_stdout(io.StringIO()):
+                    ret = M.subsolv(a['epsimin'], *[args[k] for k in names], x0=x0)
+                code = (REPLAY_HEAD + _LIB_SRC + f"\n\nfrom numpy import array\na = {dict(args, epsimin=a['epsimin'])!r}\nx0 = {x0c!r}\n"
+                        "ret = _mma_mod.subsolv(a['epsimin'], *[a[k] for k in ('low', 'upp', 'alfa', 'beta', 'P', 'Q', 'a0', 'a', 'b', 'c', 'd')], x0=x0)\n"
+                        "el = eps_last(a['epsimin'])\nres = kkt_residual(a, ret, el)\nprint(ret[0], abs(res).max(), el)\n"
+                        "assert np.all(ret[0] > a['alfa']) and np.all(ret[0] < a['beta']) and abs(res).max() <= el\n")
+                unchanged = all(np.array_equal(args[k], a[k]) for k in names) and (x0 is None or np.array_equal(x0, x0c))
+                r.check(unchanged, 'subsolv does not modify its arguments', dict(case=(n, m, ver, ci, label)), replay_code=code)
+                ok = all(np.all(np.isfinite(v)) for v in ret) and np.all(ret[0] > a['alfa']) and np.all(ret[0] < a['beta'])
+                r.check(ok, 'solution strictly inside the admissible interval', dict(case=(n, m, ver, ci, label), x=ret[0]), replay_code=code)
+                if ok:
+                    res = L.kkt_residual(a, ret, el)
+                    r.check(np.max(np.abs(res)) <= el and all(np.all(np.asarray(v) > 0) for v in ret[1:]), 'optimality conditions to the requested accuracy, positive multipliers',
+                            dict(case=(n, m, ver, ci, label), max_residual=float(np.max(np.abs(res))), allowed=el), replay_code=code)
+                    sols[label] = ret[0].copy()
+            w = a['beta'] - a['alfa']
+            for label, x in sols.items():
+                r.check(np.all(np.abs(x - sols.get('recorded', x)) <= 1e-6 * w), 'the solution does not depend on the starting point (unique optimum of the convex subproblem)',
+                        dict(case=(n, m, ver, ci, label), x=x, x_recorded=sols.get('recorded')))
+
+
+# subproblem recorded at iteration 25 of minimize_mma on a 3-variable convex QP with xmin = 0, xmax = 0.01 (responses O(1)); design already at its optimum, two variables on xmin
+CAP_WITNESS = {'epsimin': 2.23606797749979e-10, 'low': [0.007047079927207146, -0.00020996890380281847, -0.0006170515293646572],
+               'upp': [0.007338703434337091, 0.00020996894646430132, 0.0006170515408081026], 'alfa': [0.007061661102563643, 0.0, 0.0],
+               'beta': [0.007324122258980594, 0.00018897205395094533, 0.0005553463872994646],
+               'P': [[4.585476506050415e-06, 2.5406627820462048e-06, 9.303630748807818e-05], [2.3936848384177454e-09, 1.3360604661759852e-06, 4.444922100041225e-08],
+                     [9.320469775060882e-10, 1.6296347640138054e-09, 2.350051120744429e-05]],
+               'Q': [[4.6021354380900176e-09, 2.582167564003944e-09, 9.332373634868196e-08], [2.3748174557784707e-06, 1.378768647050677e-09, 4.41129176244602e-05],
+                     [9.117179570059019e-07, 1.5871774492560761e-06, 2.3857406397998753e-08]],
+               'a0': 1.0, 'a': [0.0, 0.0], 'b': [0.09423486870795676, 0.0519497973457721], 'c': [1000.0, 1000.0], 'd': [1.0, 1.0],
+               'x0': [0.007192891680772118, 2.133074143838078e-11, 5.721722703584416e-12]}
+
+
+@bound('design-variable ranges below 0.1: (a) one recorded subproblem (range 0.01, n = 3, m = 2) solved by subsolv directly; (b) [thorough] the complete 45-iteration run on the problem it was '
+       'recorded from (fixed generator seed, independent of VERIF_SEED) with every clause audited', finding='C10-subsolv-cap')
+def small_range(r, tier, seed):
+    import contextlib, io
+    import pymoto.common.mma as M
+    a = {k: (np.array(v) if isinstance(v, list) else v) for k, v in CAP_WITNESS.items()}
+    buf = io.StringIO()
+    with contextlib.redirect_stdout(buf):
+        ret = M.subsolv(a['epsimin'], a['low'], a['upp'], a['alfa'], a['beta'], a['P'], a['Q'], a['a0'], a['a'], a['b'], a['c'], a['d'], x0=a['x0'].copy())
+    el = L.eps_last(a['epsimin'])
+    res = L.kkt_residual(a, ret, el)
+    r.case('recorded-subproblem')
+    code = (REPLAY_HEAD + _LIB_SRC + f"\n\na = {{k: (np.array(v) if isinstance(v, list) else v) for k, v in {CAP_WITNESS!r}.items()}}\n"
+            "ret = _mma_mod.subsolv(a['epsimin'], a['low'], a['upp'], a['alfa'], a['beta'], a['P'], a['Q'], a['a0'], a['a'], a['b'], a['c'], a['d'], x0=a['x0'].copy())\n"
+            "el = eps_last(a['epsimin'])\nres = kkt_residual(a, ret, el)\nprint('x =', ret[0], 'max residual', abs(res).max(), 'allowed', el)\nassert abs(res).max() <= el\n")
+    r.check(np.max(np.abs(res)) <= el, 'subproblem solution satisfies the (barrier-relaxed) optimality conditions to the requested accuracy',
+            dict(subproblem='CAP_WITNESS', x=ret[0], solver_messages=buf.getvalue().count('\n')), float(np.max(np.abs(res))), el, replay_code=code, finding='C10-subsolv-cap')
+    if tier == 'thorough':
+        spec = gen(np.random.default_rng(0), [('array', 3)], 2, obj='quad', cons=('lin', 'quad'), box=(0.0, 0.01), opts=dict(maxit=45, tolx=0.0, mmaversion='Svanberg2007'))
+        report(r, 'range-0.01-run', spec, conv=dict(xtol=1e-4, gtol=1e-7, ftol=1e-5), finding='C10-subsolv-cap')
+
+
+CHECKS = [('iterations', iterations), ('asymptote_parameters', asymptote_parameters), ('convergence', convergence), ('histories', histories), ('subsolv_direct', subsolv_direct),
+          ('list_bounds', list_bounds), ('small_range', small_range)]
